@@ -1,3 +1,4 @@
+// PROP: C01  FAMILIES: bfe=run_bfe xfe=run_xfe
 //! C01 -- base and extension field arithmetic.  Families `bfe` (raw Montgomery words in/out) and `xfe`.
 use crate::util::*;
 use num_traits::Zero;
